@@ -306,6 +306,12 @@ func (cs *ContractSet) ParseFile(path, pkgPath string, ext bool) error {
 			return fmt.Errorf("%s:%d: cannot parse contract line: %s", path, ln, line)
 		}
 	}
+	// a verified function declared pure/readonly has the empty frame, and that frame is checked
+	for _, c := range cs.Order {
+		if (c.Pure || c.ReadOnly) && !c.Trusted && !c.HasAssign {
+			c.HasAssign = true
+		}
+	}
 	return sc.Err()
 }
 
